@@ -117,6 +117,9 @@ def main(argv=None) -> int:
                 print(f"NOTE: the property-specific analysis stopped early ({ctx.aborted}); the findings above were decided before that")
             print(f"VIOLATION property={prop} replay={vpath}")
             return 1
+        stale = os.path.join(HERE, "evidence", f"{prop}.violations.json")
+        if not args.no_evidence and os.path.exists(stale):
+            os.remove(stale)  # replay file of an earlier run that reported a violation
         if ctx.floor_failures:
             print(f"ANALYSIS-ERROR {prop}: " + "; ".join(ctx.floor_failures))
             return 2
